@@ -1716,7 +1716,7 @@ def run_sched(driver_cmd: List[str], cases: List[str], workdir: str, tag: str, m
 
 def check_C14(tier: str, seed: int) -> int:
     v = Verdict("C14", tier, seed, "proof")
-    ob = vplib.check_obligations("C14", expected=["C14_schedule", "C14_fault_offset", "C14_fault_event"])
+    ob = vplib.check_obligations("C14", expected=["C14_schedule", "C14_fault_offset", "C14_fault_event", "C14_schedules_agree", "C14_sched_no_panic", "C14_fault_no_panic", "C14_sched_ok_same"])
     vplib.build_harness(["release", "dev"])
     w = Work("C14")
     try:
